@@ -1,5 +1,6 @@
 import JsightVerif.Model.ScanGen
 import JsightVerif.Model.Project
+import JsightVerif.Model.Build
 import Driver.Reach
 /-
   Line-protocol driver (DESIGN Appendix A): one case per line on stdin, one
@@ -202,10 +203,76 @@ def cmdProj (args : List String) : String :=
     | _, _ => "BAD-INPUT"
   | _ => "BAD-INPUT"
 
+/-! ### cat: the whole build up to the catalog skeleton (L2/L3) -/
+
+open JsightVerif.Model.Build in
+def renderCat (c : Cat) : List Bytes :=
+  let bar : Bytes := [124]
+  let comma : Bytes := [44]
+  let sb := strBytes
+  let od (o : Option Bytes) : Bytes := o.getD []
+  let bool (b : Bool) : Bytes := sb (if b then "true" else "false")
+  let info := match c.info with
+    | some i => [sb "info|" ++ i.title ++ bar ++ i.version ++ bar ++ od i.desc]
+    | none => []
+  let servers := c.servers.map fun (n, a, b) => sb "server|" ++ n ++ bar ++ a ++ bar ++ b
+  let tags := c.tags.map fun t => sb "tag|" ++ t.name ++ bar ++ t.title ++ bar ++ od t.desc ++ bar ++ joinWith comma (t.http ++ t.rpc)
+  let types := c.types.map fun (n, a, nota) => sb "type|" ++ n ++ bar ++ a ++ bar ++ sb nota
+  let enums := c.enums.map fun (n, a) => sb "enum|" ++ n ++ bar ++ a
+  let inters := c.inters.map fun i =>
+    match i with
+    | .http h =>
+      let q := match h.query with
+        | some (f, e) => sb "|query=" ++ f ++ comma ++ e
+        | none => []
+      let rq := match h.request with
+        | some (_, body, hdr) =>
+          let (f, n) := body.getD ("", "")
+          sb "|request=" ++ sb f ++ comma ++ sb n ++ sb ",headers=" ++ bool hdr
+        | none => []
+      let rs := (h.responses.map fun r =>
+        let (f, n) := r.body.getD ("", "")
+        bar ++ r.code ++ sb "=" ++ r.ann ++ comma ++ sb f ++ comma ++ sb n ++ sb ",headers=" ++ bool r.headers).flatten
+      let pv := joinWith comma (sortBytes ((pathParams h.path).map (·.param)))
+      sb "http|" ++ h.id ++ bar ++ h.ann ++ bar ++ od h.desc ++ sb "|tags=" ++ joinWith comma h.tags ++ q ++ rq ++ rs ++ sb "|pathVars=" ++ pv
+    | .rpc r =>
+      sb "rpc|" ++ r.id ++ bar ++ r.ann ++ bar ++ od r.desc ++ sb "|tags=" ++ joinWith comma r.tags ++ sb "|params=" ++ bool r.params ++ sb "|result=" ++ bool r.result
+  info ++ servers ++ tags ++ types ++ enums ++ inters
+
+def cmdCat (args : List String) : String :=
+  match args with
+  | rootHex :: rest0 =>
+    let (banned, rest) : List Kind × List String := match rest0 with
+      | b :: r => if b.startsWith "B:" then (((b.drop 2).toString.splitOn ",").filterMap kindOfKeyword, r) else ([], rest0)
+      | [] => ([], [])
+    match unhex rootHex, parseFiles rest with
+    | some root, some files =>
+      let root := root.toList
+      match files.find? (fun f => f.name == cleanName root && !f.isDir) with
+      | none => "BAD-INPUT no root"
+      | some rf =>
+        let core : Core := { current := { name := root, env := mkEnv rf.content rf.oracle.lenAt, sc := Sc.init .stateRoot }, banned := banned }
+        match Core.run (mkFileSys files) (projFuel files) core with
+        | .ok c =>
+          let content (f : Bytes) : Bytes := match files.find? (fun x => x.name == cleanName f) with
+            | some x => x.content.toList
+            | none => []
+          match Build.build c.ctx.forest root banned content with
+          | .ok b => "CAT " ++ " ".intercalate ((renderCat b.cat).map hexB)
+          | .error e => renderPErr files e
+        | .error (.panic _) => "PANIC"
+        | .error .fuel => "FUEL"
+        | .error (.err e) =>
+          if e.msg.startsWith "M|ORACLE-MISS " then "MISS " ++ hexN e.file ++ " " ++ (e.msg.drop 14).toString
+          else renderPErr files e
+    | _, _ => "BAD-INPUT"
+  | _ => "BAD-INPUT"
+
 def handle (line : String) : String :=
   match (line.trimAscii.toString.splitOn " ").filter (· ≠ "") with
   | "scan" :: args => cmdScan args
   | "proj" :: args => cmdProj args
+  | "cat" :: args => cmdCat args
   | _ => "BAD-OP"
 
 partial def loop (h : IO.FS.Stream) (out : IO.FS.Stream) : IO Unit := do
